@@ -224,6 +224,18 @@ VARIANTS = [
     V( 'port-link-range-not-enforced', DEVICE, "assert 0 <= pl[\"link\"] <= 0xFF, \\", "assert 0 <= pl[\"link\"] or True, \\", fires=[ 'T-PORTLINK' ], why='defect DI' ),
     V( 'port-zero-accepted', DEVICE, "assert 0 < pl[\"port\"] <= 0xFFFF, \\", "assert 0 <= pl[\"port\"] <= 0xFFFF, \\", fires=[ 'T-PORTLINK' ] ),
     V( 'port-beyond-uint-accepted', DEVICE, "assert 0 < pl[\"port\"] <= 0xFFFF, \\", "assert 0 < pl[\"port\"], \\", fires=[ 'T-PORTLINK' ], why='defect DI' ),
+    V( 'history-search-target-ahead-by-lookahead', 'history/files.py', "target		= self.advance()\n else:", "target		= self.advance() + ( lookahead or 0.0 )\n        else:", fires=[ 'H-FILES' ], why='round 13 C18/1' ),
+    V( 'history-search-target-clock-via-local', 'history/files.py', "target		= self.advance()\n else:", "now		= self.advance()\n            target		= now\n        else:", silent=[ 'H-FILES' ] ),
+    V( 'logix-write-refused-behind-store', 'server/enip/logix.py', "attribute[beg:end]	= data[context].data", "attribute[beg:end]	= data[context].data\n                assert not attribute.error, 'forced failure'", fires=[ 'D-VALIDATE' ], why='defect DE' ),
+    V( 'logix-write-refused-ahead-of-store', 'server/enip/logix.py', "attribute[beg:end]	= data[context].data", "assert beg < end, 'nothing to write'\n                attribute[beg:end]	= data[context].data", silent=[ 'D-VALIDATE' ] ),
+    V( 'bool-words-not-stripped', CLIENT, "lowered = b.strip().lower() # (as int() does; values are a whitespace-padded list)", "lowered = b.lower()", fires=[ 'T-BOOLTEXT' ], why='defect DF' ),
+    V( 'bool-words-stripped-after-lowering', CLIENT, "lowered = b.strip().lower() # (as int() does; values are a whitespace-padded list)", "lowered = b.lower().strip()", silent=[ 'T-BOOLTEXT' ] ),
+    V( 'bool-word-yes-is-true', CLIENT, "if lowered == \"true\":", "if lowered in ( \"true\", \"yes\" ):", fires=[ 'T-BOOLTEXT' ] ),
+    V( 'reopen-compared-by-getattr', DEVICE, "assert all( ufo.get( a ) == fo.get( a )", "assert all( ufo.getattr( a ) == fo.getattr( a )", fires=[ 'K-REOPEN' ], why='defect DG' ),
+    V( 'reopen-compares-one-direction-only', DEVICE, "for a in ( 'O_T.NCP', 'O_T.RPI', 'T_O.NCP', 'T_O.RPI', 'transport_class_triggers', 'connection_path' )), \\", "for a in ( 'O_T.NCP', 'O_T.RPI' )), \\", fires=[ 'K-REOPEN' ] ),
+    V( 'reopen-compared-by-subscript', DEVICE, "assert all( ufo.get( a ) == fo.get( a )", "assert all( ufo[a] == fo[a]", silent=[ 'K-REOPEN' ] ),
+    V( 'single-attribute-unknown-answers-08', DEVICE, "data.status	= 0x05		# Request Path destination unknown\n assert str(a_id) in self.attribute, \\", "assert str(a_id) in self.attribute, \\", fires=[ 'S-STATUS' ], why='defect DH' ),
+    V( 'single-attribute-unknown-status-decimal', DEVICE, "data.status	= 0x05		# Request Path destination unknown\n assert str(a_id) in self.attribute, \\", "data.status	= 5\n                assert str(a_id) in self.attribute, \\", silent=[ 'S-STATUS' ] ),
     V( 'forward-close-over-tuple-snapshot', DEVICE, "for k in list( self.forwards.keys() ): # we'll be mutating the dict...", "for k in tuple( self.forwards ):", silent=[ 'W-ITERDEL' ] ),
     V( 'struct-read-complete-by-short-window', LOGIX, "completed = end == endactual and offremains+max_size >= len( input )", "completed		= end == endactual and len( trimmed ) < max_size", fires=[ 'F-STATUS' ] ),
     V( 'struct-read-complete-by-window-end', LOGIX, "completed = end == endactual and offremains+max_size >= len( input )", "completed		= end == endactual and not input[offremains+max_size:]", silent=[ 'F-STATUS' ] ),
